@@ -148,9 +148,22 @@ func VH_C18_cli() {
 	gb := vFile("anno.gb", []byte("LOCUS       TEST 4 bp DNA\nFEATURES             Location/Qualifiers\n     CDS             1..3\n                     /gene=\"g\"\n                     /codon_start=1\n                     /translation=\"T\"\nORIGIN\n        1 acgt\n//\n"))
 	bad := vFile("anno.txt", []byte("whatever"))
 	var err error
-	switch vChoice("case", 9) {
+	kind := vChoice("case", 12)
+	switch kind {
 	case 0: // unrecognised annotation suffix
 		err = vCLI("variants", "--msa", aln, "-a", bad, "-o", out, "-t", "1")
+	case 9, 10, 11: // unrecognised annotation suffix, sam variants (with a reference file) and variants (.gff3)
+		samf := vFile("in.sam", []byte(vCliSam))
+		ref8 := vFile("ref8.fa", []byte(">ref\nACGTACGT\n"))
+		g3 := vFile("anno.gff3", []byte("##gff-version 3\n##sequence-region ref 1 8\nref\tx\tCDS\t1\t6\t.\t+\t0\tID=a;Name=g\n##FASTA\n>ref\nACGTACGT\n"))
+		switch kind {
+		case 9:
+			err = vCLI("sam", "variants", "-s", samf, "-r", ref8, "-a", g3, "-o", out, "-t", "1")
+		case 10:
+			err = vCLI("sam", "variants", "-s", samf, "-r", ref8, "-a", bad, "-o", out, "-t", "1")
+		default:
+			err = vCLI("variants", "--msa", aln, "-a", g3, "-o", out, "-t", "1")
+		}
 	case 1: // input file that does not exist
 		err = vCLI("snps", "-r", ref, "-q", "/vfs/does-not-exist.fa", "-o", out)
 	case 2: // unknown distance measure
